@@ -5,6 +5,8 @@ import sys
 import time
 
 VERIF = os.path.dirname(os.path.dirname(os.path.abspath(__file__)))
+# evidence directory: /verif/evidence; tools/pmatrix.py redirects it when it analyses scratch copies in parallel
+EVDIR = os.environ.get('VERIF_EVIDENCE_DIR') or os.path.join(VERIF, 'evidence')
 KNOWN = os.path.join(VERIF, 'known_findings.json')
 
 
@@ -119,10 +121,10 @@ class Report:
             print('  rule %-28s obligations %4d  discharged %4d' % (r, n, d))
         for o in listed:
             print('KNOWN-FINDING: property=%s %s [%s] %s' % (self.prop, kf[(self.prop, o.key)].get('what', o.what), o.key, (o.witness or '')))
-        os.makedirs(os.path.join(VERIF, 'evidence', 'replay'), exist_ok=True)
+        os.makedirs(os.path.join(EVDIR, 'replay'), exist_ok=True)
         replay_paths = []
         import glob
-        for old in glob.glob(os.path.join(VERIF, 'evidence', 'replay', '%s-*.json' % self.prop)):
+        for old in glob.glob(os.path.join(EVDIR, 'replay', '%s-*.json' % self.prop)):
             os.remove(old)          # replay files describe the current run only
         for o in new:
             print('  VIOLATED %s  %s  fn %s  rule %s' % (o.site, o.what, o.fn, o.rule))
@@ -130,7 +132,7 @@ class Report:
                 print('      ' + line)
             if o.witness:
                 print('      witness: %s' % o.witness)
-            rp = os.path.join(VERIF, 'evidence', 'replay', '%s-%s.json' % (self.prop, safe(o.key)))
+            rp = os.path.join(EVDIR, 'replay', '%s-%s.json' % (self.prop, safe(o.key)))
             with open(rp, 'w') as f:
                 json.dump({'property': self.prop, 'obligation': o.to_json(), 'tier': self.tier}, f, indent=1)
             replay_paths.append(rp)
@@ -210,8 +212,8 @@ class Report:
             'wall_s': round(wall, 2),
             'violations': nviol,
         }
-        os.makedirs(os.path.join(VERIF, 'evidence'), exist_ok=True)
-        with open(os.path.join(VERIF, 'evidence', '%s.json' % self.prop), 'w') as f:
+        os.makedirs(os.path.join(EVDIR), exist_ok=True)
+        with open(os.path.join(EVDIR, '%s.json' % self.prop), 'w') as f:
             json.dump(ev, f, indent=1, default=str)
 
 
